@@ -56,6 +56,7 @@ def jobs(tier, seed):
                 if ch is not None:
                     out.append({"cc": cc, "reg": True, "pins": pins, "chunk": ch})
     n_countries = len({e.get("country_code") for e in table.banks() if e.get("country_code")})
+    out.append({"kind": "setorder"})
     for i in (range(n_countries) if tier == "thorough" else rnd.sample(range(n_countries), 6)):
         out.append({"cc": "", "reg": True, "pins": [], "chunk": None, "country_index": i})
     return out
@@ -174,8 +175,74 @@ class SymRstr:
         return rt.mkstr(out)
 
 
+SETORDER_SCRIPT = r"""
+import json, sys
+sys.path.insert(0, "/verif")
+from sx import instr
+instr.install()
+import schwifty
+from schwifty.bban import BBAN
+
+class Stop(Exception):
+    pass
+
+class Rec:
+    def __init__(self):
+        self.seqs = []
+    def choice(self, seq):
+        self.seqs.append([x if isinstance(x, str) else x.get("bank_code") for x in seq])
+        if len(self.seqs) >= 2 or not all(isinstance(x, str) for x in seq):
+            raise Stop
+        return seq[0]
+
+out = {}
+for cc in ("", "DE", "FR"):
+    r = Rec()
+    try:
+        BBAN.random(cc, random=r)
+    except Stop:
+        pass
+    out[cc] = r.seqs
+print(json.dumps(out))
+"""
+
+
+def run_setorder(res):
+    """every sequence handed to the generator's choice() must be the same under a second legal iteration order of
+    every set the library iterates (import time included): the library is imported afresh in two interpreters, one
+    of which reverses every set iteration of the instrumented code"""
+    import json
+    import os
+    import subprocess
+    import sys
+
+    outs = []
+    for rev in ("", "1"):
+        env = {**os.environ, "SX_SET_REVERSE": rev}
+        if not rev:
+            env.pop("SX_SET_REVERSE")
+        p = subprocess.run([sys.executable, "-c", SETORDER_SCRIPT], capture_output=True, text=True, env=env, timeout=300)
+        try:
+            outs.append(json.loads(p.stdout.strip().splitlines()[-1]))
+        except Exception:  # noqa: BLE001
+            raise rt.Unmodelled("set-order probe failed: " + (p.stderr or p.stdout)[-300:])
+    res["obligations"] += 1
+    rt.ctx.stats.bump("paths", 2)
+    if outs[0] != outs[1]:
+        which = [k for k in outs[0] if outs[0][k] != outs[1][k]]
+        res["violations"].append({"property": "C13", "what": f"the sequence a seeded generator chooses from depends on set iteration order (hash seed) for country argument(s) {which}", "mode": "violation",
+                                  "call": {"steps": [["call", "spec.replay_preds.c13_hashseed", [], {}]]},
+                                  "pred": {"kind": "value_is_not", "value": {"cp": [111, 107]}}, "engine": {"outcome": "return"}})
+    else:
+        res["witnesses"].append({"property": "C13", "what": "seeded draws under two hash seeds", "mode": "witness", "engine": {"outcome": "return", "value": {"cp": [111, 107]}},
+                                 "call": {"steps": [["call", "spec.replay_preds.c13_hashseed", [], {}]]}})
+
+
 def run_job(job, res):
     from schwifty import bban as bban_mod
+
+    if job.get("kind") == "setorder":
+        return run_setorder(res)
 
     cc, pins = job["cc"], job["pins"]
     real_rstr = bban_mod.Rstr
